@@ -11,7 +11,7 @@ from __future__ import annotations
 from collections import deque
 
 
-def bfs(build, enabled, canon, invariant, max_depth, max_states=None):
+def bfs(build, enabled, canon, invariant, max_depth, max_states=None, invariant_new_only=False):
     """
     build(hist) -> world            (fresh objects, history replayed; may raise -> reported)
     enabled(world, hist) -> list of operations (JSON-able) applicable in that state
@@ -40,7 +40,10 @@ def bfs(build, enabled, canon, invariant, max_depth, max_states=None):
             if w is None:  # the operation itself failed and was reported by build
                 continue
             k = canon(w)
-            invariant(w, nh)
+            # with invariant_new_only the invariant is evaluated once per distinct canonical
+            # state (sound when the canonical form determines the invariant's outcome)
+            if not invariant_new_only or k not in seen:
+                invariant(w, nh)
             if k not in seen:
                 if max_states is not None and len(seen) >= max_states:
                     capped = True
